@@ -111,10 +111,11 @@ Definition apply_entry (op : logop) (nd : node) : node :=
       else mknode (st nd) nxt true (incons nd) false false (pending nd) (snaps nd) (calls nd)
   end.
 
-(* FSM.Restore: decode the snapshot onto the state. [restore_clears] = the consensus/raft wrapper empties the state first. *)
-Definition restore_clears : bool := false.
-Definition restore_onto (cur snap : pinset) : pinset :=
-  if restore_clears then snap else fold_left (fun acc kv => sput (fst kv) (snd kv) acc) snap cur.
+(* FSM.Restore as consensus/raft hands it to hashicorp/raft (restoreFSM, fix of S1): the state is emptied, then the
+   snapshot is decoded onto it (State.Unmarshal puts every entry). [restore_merge] is Unmarshal alone, onto whatever the
+   state holds: what go-libp2p-raft's FSM.Restore does by itself, and what OfflineState does onto a new datastore. *)
+Definition restore_merge (cur snap : pinset) : pinset := fold_left (fun acc kv => sput (fst kv) (snd kv) acc) snap cur.
+Definition restore_onto (cur snap : pinset) : pinset := restore_merge [] snap.
 
 Definition snap_req (nd : node) : node :=
   if crashed nd then nd else
@@ -144,16 +145,19 @@ Fixpoint upd (n : nat) (f : node -> node) (l : list node) : list node :=
 Definition getn (n : nat) (cl : cluster) : node := nth n (nodes cl) node0.
 
 Inductive mevent :=
-| MCommit (op : logop)          (* the leader appends an entry that becomes committed *)
+| MCommit (op : logop)          (* LogPin/LogUnpin (or a raw Raft.Apply) submits op; if accepted it becomes the next committed entry *)
 | MApply (n : nat)              (* node n's FSM is given its next entry *)
 | MSnapReq (n : nat)            (* FSM.Snapshot on n *)
 | MPersist (n : nat)            (* the snapshot requested on n is written to n's snapshot store *)
 | MRestore (n src k : nat)      (* FSM.Restore on n of the k-th snapshot persisted by src (install from the leader, or own store at start) *)
 | MRestart (n : nat).           (* n's process ends (shutdown, crash or kill) and starts again on its stores *)
 
+(* Consensus.LogPin refuses, before committing, a pin that does not ProtoMarshal (fix of S24): such an op never reaches the log *)
+Definition accepts (op : logop) : bool := match op with LPin p => negb (pin_badutf p) | _ => true end.
+
 Definition step (cl : cluster) (e : mevent) : cluster :=
   match e with
-  | MCommit op => mkcluster (log cl ++ [op]) (nodes cl)
+  | MCommit op => if accepts op then mkcluster (log cl ++ [op]) (nodes cl) else cl
   | MApply n =>
       match nth_error (log cl) (applied (getn n cl)) with
       | Some op => mkcluster (log cl) (upd n (apply_entry op) (nodes cl))
@@ -176,7 +180,7 @@ Definition view (nd : node) : option pinset :=
 
 (* OfflineState: the newest snapshot in the store decoded onto an empty datastore *)
 Definition offline (nd : node) : pinset :=
-  match rev (snaps nd) with [] => [] | s :: _ => restore_onto [] (snd s) end.
+  match rev (snaps nd) with [] => [] | s :: _ => restore_merge [] (snd s) end.
 
 (* ---- vocabulary of the statements ---- *)
 Definition op_key (op : logop) : option N :=
@@ -185,10 +189,11 @@ Definition writes (c : N) (op : logop) : bool := match op_key op with Some k => 
 (* ops a..b-1 of l *)
 Definition slice (a b : nat) (l : list logop) : list logop := firstn (b - a) (skipn a l).
 
-(* an op that decodes and serialises: the premise under which the FSM behaves as a log of pin/unpin *)
+(* an op that decodes from msgpack (no origins, S19) and is no raw junk: the premise under which the FSM behaves as a
+   log of pin/unpin *)
 Definition clean_op (op : logop) : bool :=
   match op with
-  | LPin p => wire_ok p && negb (pin_badutf p)
+  | LPin p => wire_ok p
   | LUnpin p => wire_ok p
   | LOther p => wire_ok p
   | LJunk => false
@@ -205,3 +210,35 @@ Definition wf_pin (p : pin) : bool :=
    else if p_type p =? 8 then (p_maxdepth p =? 0)%Z
    else if p_type p =? 16 then (1 <=? p_maxdepth p)%Z
    else false).
+
+(* what an op writes to its cid: the stored pin, or nothing *)
+Definition effect (op : logop) : option pin := match op with LPin p => Some (store_norm p) | _ => None end.
+(* the last write to c in ops, if any *)
+Fixpoint lastw (c : N) (ops : list logop) : option (option pin) :=
+  match ops with
+  | [] => None
+  | op :: r => match lastw c r with Some e => Some e | None => if writes c op then Some (effect op) else None end
+  end.
+
+(* "s is the replay of the first M entries, except for cids that entries a..M-1 write again":
+   what a replica restored from a snapshot that was persisted late looks like while it replays *)
+Definition catching_up (lg : list logop) (a : nat) (s : pinset) : Prop :=
+  exists M, (a <= M <= length lg)%nat /\
+    forall c, sget c s = sget c (replay (firstn M lg)) \/ existsb (writes c) (slice a M lg) = true.
+
+(* assumptions about hashicorp/raft, as predicates on a schedule (checked on every observed trace, too) *)
+(* a snapshot is installed only on a replica that is not ahead of it *)
+Definition ev_forward (cl : cluster) (e : mevent) : bool :=
+  match e with
+  | MRestore n src k =>
+      match nth_error (snaps (getn src cl)) k with Some s => Nat.leb (applied (getn n cl)) (fst s) | None => true end
+  | _ => true
+  end.
+(* nothing is applied or restored on a replica between its FSM.Snapshot and the Persist of that snapshot *)
+Definition ev_atomic (cl : cluster) (e : mevent) : bool :=
+  match e with
+  | MApply n | MRestore n _ _ => match pending (getn n cl) with None => true | Some _ => false end
+  | _ => true
+  end.
+Fixpoint run_ok (P : cluster -> mevent -> bool) (cl : cluster) (es : list mevent) : bool :=
+  match es with [] => true | e :: r => P cl e && run_ok P (step cl e) r end.
